@@ -23,7 +23,7 @@ ASSUMPTIONS = [
     "exact containment by cube cover (self-tested against brute force)",
 ]
 REQUIRED = ["answered_true", "answered_false", "group_involved_true", "empty_port_expr_pair",
-            "nc_involved_true", "acl_level_true"]
+            "nc_involved_true", "acl_level_true", "standard_pair", "switched_pair"]
 GROUPS = True
 
 
@@ -49,12 +49,82 @@ def units(tier, seed):
     out.sort(key=lambda u: len(u["pos"]))
     for plat in ("ios", "nxos"):
         out.append(dict(kind="acl_level", platform=plat, pos=[]))
+    out += extra_units()
     return out
+
+
+SWITCHES = [dict(protocol_nr=True), dict(port_nr=True), dict(protocol_nr=True, port_nr=True)]
+
+
+def extra_units():
+    """Units shared with C11: standard (source-only) entries, and the pair space of <= 1 deviation
+    (+ protocol x protocol) with the numeric switches on."""
+    out = [dict(kind="standard", pos=[], chunk=c) for c in range(8)]
+    for plat in ("ios", "nxos"):
+        for bi in range(2):
+            for posset in P.position_sets(1):
+                out.append(dict(kind="switched", platform=plat, base=bi, pos=list(posset)))
+            out.append(dict(kind="switched", platform=plat, base=bi, pos=[1, 9]))  # both protocols
+    return out
+
+
+def run_extra(unit, ctx, groups, exact, accept=lambda top, bot: True):
+    if unit["kind"] == "standard":
+        _standard(unit["chunk"], ctx, exact)
+        return True
+    if unit["kind"] == "switched":
+        plat = unit["platform"]
+        alph = P.alphabets(ctx.seed, plat, groups)
+        base = P.base_pairs(ctx.seed)[unit["base"]]
+        for top, bot in P.pairs_for(base, tuple(unit["pos"]), alph):
+            if not (top.valid(plat) and bot.valid(plat) and accept(top, bot)):
+                continue
+            for cfg in SWITCHES:
+                check_pair(P.real_ace(top, plat, **cfg), P.real_ace(bot, plat, **cfg), P.rule_of(top),
+                           P.rule_of(bot), lambda: P.describe_pair(top, bot, plat, **cfg), ctx,
+                           exact=exact)
+                ctx.out("switched_pair")
+        return True
+    return False
+
+
+def _standard(chunk, ctx, exact):
+    """Standard ACL entries (source only, IOS): every ordered pair over action x address x log."""
+    from cisco_acl import Acl
+
+    from vf.gen import alpha as G
+
+    none = G.PortX()
+    anyaddr = G.addr_alphabet(ctx.seed)[0]
+    entries = [G.AceX(act, 0, a, none, anyaddr, none, (), logs) for act in ("permit", "deny")
+               for a in G.addr_alphabet(ctx.seed) for logs in ((), ("log",))]
+
+    def text(x):
+        return f"{x.action} {x.src.spellings('ios')[0][0]}" + (" log" if x.logs else "")
+
+    def real(x):
+        ace = Acl("ip access-list standard S\n " + text(x), platform="ios").items[0]
+        if ace.type != "standard":
+            raise AssertionError("harness: entry is not standard")
+        return ace
+
+    reals = [real(x) for x in entries]
+    for i, top in enumerate(entries):
+        if i % 8 != chunk:
+            continue
+        for j, bot in enumerate(entries):
+            check_pair(reals[i], reals[j], P.rule_of(top), P.rule_of(bot),
+                       lambda: dict(platform="ios", top=text(top), bottom=text(bot), standard=True),
+                       ctx, exact=exact)
+            ctx.out("standard_pair")
+    ctx.sample("standard", dict(top=text(top), bottom=text(bot)))
 
 
 def run_unit(unit, ctx):
     if unit.get("kind") == "acl_level":
         _acl_level(unit["platform"], ctx)
+        return
+    if unit.get("kind") and run_extra(unit, ctx, GROUPS, exact=False):
         return
     plat = unit["platform"]
     alph = P.alphabets(ctx.seed, plat, GROUPS, small=len(unit["pos"]) >= 3)
@@ -144,7 +214,7 @@ def rules_from_description(desc):
         text = desc[which]
         mem = desc.get(f"{which}_members") or {}
         rd = Reader(plat)
-        rule = rd.read_line(text)
+        rule = rd.read_line(text, "standard") if desc.get("standard") else rd.read_line(text)
         groups = {}
         for side, name in (("src", rule.src_group), ("dst", rule.dst_group)):
             if name:
